@@ -304,6 +304,9 @@ func runC09(env *Env, rc *RunCtx) {
 			}
 			return m
 		}
+		if rc.Mode == "faults" && !c09Faults(env, rc, e, et, req.Subj, d, tree.shape(), r.Calls, w) {
+			return
+		}
 		if e == 0 {
 			firstShape = tree.shape()
 		} else if tree.shape() != firstShape {
@@ -505,4 +508,51 @@ func runC09(env *Env, rc *RunCtx) {
 	if rc.WantSample && !big {
 		rc.Rec.Sample = desc(map[string]any{"tree_of_first_execution": firstShape})
 	}
+}
+
+var c09Kinds = []FaultKind{FaultTransient, FaultPersistent, FaultConflict, FaultCtx}
+
+// c09Faults repeats the expansion that has just produced the tree `want` in N
+// storage calls on the same stored state, with the k-th storage call failing:
+// a tree that is returned must still be the whole tree; an error is fine.
+func c09Faults(env *Env, rc *RunCtx, e int, et *Tape, subj relationtuple.Subject, d int, want string, N int, w func(map[string]any) map[string]any) bool {
+	ft := NewTape(Mix(rc.execSeed, 0xF09, uint64(e)))
+	var ks []int
+	if N <= 6 {
+		for k := 1; k <= N; k++ {
+			ks = append(ks, k)
+		}
+	} else {
+		ks = samplePositions(ft, N, 6)
+	}
+	for _, k := range ks {
+		kind := c09Kinds[ft.Choose(len(c09Kinds))]
+		req := &Request{Kind: "expand", Subj: subj, Depth: d}
+		plan := NoFaults()
+		plan.MaxSteps = 5000
+		plan.FaultAt = map[int]FaultKind{k: kind}
+		r := env.Exec(ReplayThen(et.Recorded(), Mix(rc.execSeed, 0xF0A, uint64(e), uint64(k))), []*Request{req}, plan)
+		rc.Rec.Execs++
+		for fk, n := range r.FaultsFired {
+			rc.Count("fault_"+fk, n)
+		}
+		out, _ := req.result.(ExpandOut)
+		fw := func() map[string]any {
+			return w(map[string]any{"fault": map[string]any{"position": k, "of": N, "kind": kind.String()}, "schedule": r.Trace, "tree_with_fault": env.fromKetoTree(out.Tree).shape()})
+		}
+		if !r.Returned {
+			rc.Violate("no-termination", "fault", fmt.Sprintf("BuildTree did not return after storage call %d of %d failed (%s)", k, N, kind), fw(), e, et)
+			return false
+		}
+		if out.Err != "" {
+			rc.Count("fault_surfaced_as_error", 1)
+			continue
+		}
+		if got := env.fromKetoTree(out.Tree).shape(); got != want {
+			rc.Violate("incomplete", "fault", fmt.Sprintf("storage call %d of %d failed (%s); expand answered without an error with a tree that differs from the fault-free one", k, N, kind), fw(), e, et)
+			return false
+		}
+		rc.Count("fault_absorbed_same_tree", 1)
+	}
+	return true
 }
